@@ -187,6 +187,9 @@ class BlockSeries:
 
         data = self._data
         for index in zip(*np.where(trial)) if trial.shape else ((),):
+            # eval takes Python integers: numpy integers overflow and, e.g., cannot
+            # be used as negative powers.
+            index = tuple(int(i) for i in index)
             if index not in data:
                 # Calling eval gives control away; mark that this value is evaluated
                 # To be able to catch recursion and data corruption.
